@@ -696,8 +696,85 @@ func pickName(r *hx.Rand, p []string) string {
 }
 
 type gen struct {
-	r    *hx.Rand
-	base int64
+	r       *hx.Rand
+	base    int64
+	queue   []func(d *meta.Data) (Cmd, bool) // scripted history still to be issued
+	lastCSG *Cmd                              // the last CreateShardGroup, for verbatim repeats
+}
+
+// groupAt returns the ID of a live group of db/rp whose [Start, End) contains t (0 if none).
+func groupAt(d *meta.Data, db, rp string, t int64) uint64 {
+	for i := range d.Databases {
+		if d.Databases[i].Name != db {
+			continue
+		}
+		for j := range d.Databases[i].RetentionPolicies {
+			p := &d.Databases[i].RetentionPolicies[j]
+			if p.Name != rp {
+				continue
+			}
+			for _, sg := range p.ShardGroups {
+				if sg.DeletedAt.IsZero() && sg.Contains(time.Unix(0, t)) {
+					return sg.ID
+				}
+			}
+		}
+	}
+	return 0
+}
+
+// history queues a scripted sequence on one policy: create a group, delete it (it stays in
+// the list until pruned) or truncate it, alter the shard group duration (longer or shorter),
+// create groups for earlier / later / overlapping timestamps, repeat creations verbatim.
+func (g *gen) history(d *meta.Data) {
+	r := g.r
+	db, rp := g.dbrp(d)
+	t0 := g.ts(d)
+	if r.Chance(70) {
+		t0 = g.base + int64(r.Intn(48)-24)*int64(time.Hour) + int64(r.Intn(3600))*int64(time.Second)
+	}
+	csg := func(t int64) func(*meta.Data) (Cmd, bool) {
+		return func(*meta.Data) (Cmd, bool) { return Cmd{K: "CreateShardGroup", S: []string{db, rp}, I: []int64{t}}, true }
+	}
+	shift := func(t, by int64) int64 {
+		if (by > 0 && t > math.MaxInt64-by) || (by < 0 && t < math.MinInt64-by) {
+			return t
+		}
+		return t + by
+	}
+	deltas := []int64{int64(2 * time.Hour), int64(30 * time.Minute), int64(24 * time.Hour), int64(90 * time.Minute), int64(3 * 24 * time.Hour), 1}
+	alter := func(*meta.Data) (Cmd, bool) {
+		sg := []int64{int64(24 * time.Hour), int64(7 * 24 * time.Hour), int64(time.Hour), int64(6 * time.Hour), int64(90 * time.Minute)}[r.Intn(5)]
+		return Cmd{K: "UpdateRetentionPolicy", S: []string{db, rp, ""}, B: []bool{false, false, false, true, false}, I: []int64{0, sg}}, true
+	}
+	q := []func(*meta.Data) (Cmd, bool){csg(t0)}
+	switch r.Intn(4) {
+	case 0, 1: // delete the group just created, not pruned
+		q = append(q, func(d *meta.Data) (Cmd, bool) {
+			id := groupAt(d, db, rp, t0)
+			return Cmd{K: "DeleteShardGroup", S: []string{db, rp}, U: []uint64{id}}, id != 0
+		})
+	case 2: // truncate inside / before it
+		q = append(q, func(*meta.Data) (Cmd, bool) {
+			return Cmd{K: "TruncateShardGroups", I: []int64{shift(t0, int64(r.Intn(5)-2)*int64(20*time.Minute))}}, true
+		})
+	}
+	if r.Chance(80) {
+		q = append(q, alter)
+	}
+	t1 := shift(t0, -deltas[r.Intn(len(deltas))])
+	if r.Chance(35) {
+		t1 = shift(t0, deltas[r.Intn(len(deltas))])
+	}
+	q = append(q, csg(t1), csg(t1))
+	if r.Chance(50) {
+		q = append(q, func(*meta.Data) (Cmd, bool) { return Cmd{K: "TruncateShardGroups", I: []int64{shift(t1, int64(r.Intn(3))*int64(time.Hour))}}, true })
+	}
+	if r.Chance(50) {
+		q = append(q, alter)
+	}
+	q = append(q, csg(t0), csg(shift(t1, -deltas[r.Intn(len(deltas))])), csg(t1), csg(t0))
+	g.queue = append(g.queue, q...)
 }
 
 func (g *gen) ts(d *meta.Data) int64 {
@@ -705,7 +782,7 @@ func (g *gen) ts(d *meta.Data) int64 {
 	switch r.Intn(12) {
 	case 0:
 		return []int64{0, -1, 1, math.MaxInt64, math.MaxInt64 - 1, math.MaxInt64 - 2, math.MinInt64, math.MinInt64 + 1, math.MinInt64 + 2,
-			-int64(7 * 24 * time.Hour), int64(time.Hour) - 1}[r.Intn(11)]
+			-int64(7 * 24 * time.Hour), int64(time.Hour) - 1, -int64(30 * time.Minute), -int64(time.Hour), -int64(24*time.Hour) + 1}[r.Intn(14)]
 	case 1, 2, 3:
 		// at or next to a boundary of an existing group
 		var bs []int64
@@ -784,6 +861,33 @@ func (g *gen) dbrp(d *meta.Data) (string, string) {
 }
 
 func (g *gen) next(d *meta.Data, idx, term uint64) Cmd {
+	r := g.r
+	for len(g.queue) > 0 {
+		f := g.queue[0]
+		g.queue = g.queue[1:]
+		if c, ok := f(d); ok {
+			c.Idx, c.Term = idx, term
+			return c
+		}
+	}
+	if len(d.DataNodes) > 0 && len(d.Databases) > 0 && r.Chance(4) {
+		g.history(d)
+		return g.next(d, idx, term)
+	}
+	if g.lastCSG != nil && r.Chance(6) { // idempotence: the very same CreateShardGroup again
+		c := *g.lastCSG
+		c.Idx, c.Term = idx, term
+		return c
+	}
+	c := g.next1(d, idx, term)
+	if c.K == "CreateShardGroup" {
+		cc := c
+		g.lastCSG = &cc
+	}
+	return c
+}
+
+func (g *gen) next1(d *meta.Data, idx, term uint64) Cmd {
 	r := g.r
 	c := Cmd{Idx: idx, Term: term}
 	sids, gids := shardIDs(d)
@@ -939,6 +1043,10 @@ func (g *gen) next(d *meta.Data, idx, term uint64) Cmd {
 
 func genLog(o *hx.Out, r *hx.Rand, n int) {
 	g := &gen{r: r, base: 1600000000000000000 + int64(r.Intn(1000))*int64(time.Hour)}
+	if r.Chance(15) {
+		// around the Unix epoch: pre-1970 timestamps, groups that end exactly at 1970-01-01T00:00Z
+		g.base = -int64(30*time.Minute) - int64(r.Intn(4))*int64(time.Hour)
+	}
 	d := LogDesc{Auto: r.Chance(70)}
 	o.Begin("log", map[string]interface{}{"note": "log under generation; commands so far", "auto": d.Auto})
 	run := newRunner(d.Auto)
